@@ -952,9 +952,6 @@ func c01BudgetOn(p *Prog, a *Anchors, r *Report, key string) {
 		if n == nil || (n.Obj().Name() != "Parser" && n.Obj().Name() != "Template") {
 			return ""
 		}
-		if m := c01MarkOf(p, fa); m != nil {
-			return m.of // (a high-water mark of a counter bounds what the counter bounds, not something beside it)
-		}
 		return n.Obj().Name() + "." + fieldName(fa.X.Type(), fa.Field)
 	}
 	for _, f := range p.inPkgFuncsSorted(p.allFuncSet()) {
@@ -971,6 +968,11 @@ func c01BudgetOn(p *Prog, a *Anchors, r *Report, key string) {
 				continue
 			}
 			bo := c.(*ssa.BinOp)
+			if c01ReadsMark(p, bo.X) {
+				// (the comparison of a high-water mark refuses trees that are too high where a node is put on top; it is
+				// not passed at every step of the counter and bounds nothing beside what the counter's own step bounds)
+				continue
+			}
 			k, _ := constInt(bo.Y)
 			var fields []string
 			var collect func(v ssa.Value)
@@ -1329,7 +1331,17 @@ func ruleC01Rewrap(p *Prog, a *Anchors, r *Report) {
 		for _, b := range f.Blocks {
 			for _, in := range b.Instrs {
 				c, ok := in.(*ssa.Call)
-				if !ok || !c.Common().IsInvoke() || c.Common().Method.Name() != "Error" || !types.Identical(c.Common().Value.Type(), errT) {
+				if !ok {
+					continue
+				}
+				var ev ssa.Value
+				switch {
+				case c.Common().IsInvoke() && c.Common().Method.Name() == "Error" && types.Identical(c.Common().Value.Type(), errT):
+					ev = c.Common().Value
+				case c.Common().StaticCallee() != nil && c01ErrorTextHelper(p, c.Common().StaticCallee()) >= 0:
+					// a helper of the package that hands back err.Error() of its parameter (under a recover, say)
+					ev = c.Common().Args[c01ErrorTextHelper(p, c.Common().StaticCallee())]
+				default:
 					continue
 				}
 				// the text becomes the message of a new execution error
@@ -1353,7 +1365,6 @@ func ruleC01Rewrap(p *Prog, a *Anchors, r *Report) {
 				if count[key] > 1 {
 					key += "#" + itoa(int64(count[key]))
 				}
-				ev := c.Common().Value
 				tested := Guarded(in, func(cond ssa.Value, pol bool) bool {
 					// `inner, ok := err.(*Error)`: the not-ok edge, or a test of a field of inner on its failing edge
 					isAssertOf := func(v ssa.Value) bool {
@@ -2007,4 +2018,38 @@ func c01MayBeCallersError(p *Prog, c *ssa.Call, depth int) bool {
 		}
 	}
 	return false
+}
+
+// c01ErrorTextHelper: g is a function of the package with an `error` parameter that returns a string and calls Error()
+// on that parameter: the index of the parameter (else -1).
+func c01ErrorTextHelper(p *Prog, g *ssa.Function) int {
+	if g == nil || g.Blocks == nil || !p.InPkg(g) || g.Signature.Results().Len() != 1 {
+		return -1
+	}
+	if b, ok := g.Signature.Results().At(0).Type().Underlying().(*types.Basic); !ok || b.Kind() != types.String {
+		return -1
+	}
+	errT := types.Universe.Lookup("error").Type()
+	for _, b := range g.Blocks {
+		for _, in := range b.Instrs {
+			c, ok := in.(*ssa.Call)
+			if !ok || !c.Common().IsInvoke() || c.Common().Method.Name() != "Error" {
+				continue
+			}
+			v := c.Common().Value
+			if up := unspillParam(v); up != nil {
+				v = up
+			}
+			pa, ok := v.(*ssa.Parameter)
+			if !ok || !types.Identical(pa.Type(), errT) {
+				continue
+			}
+			for i, gp := range g.Params {
+				if gp == pa {
+					return i
+				}
+			}
+		}
+	}
+	return -1
 }
